@@ -125,7 +125,7 @@ def analyse_points(prog, points, cplx=None):
     return out
 
 
-def run_config(fun, cfg, gen, pi, direct_fx):
+def run_config(fun, cfg, gen, pi, direct_fx, want_steps=False):
     """Execute one configuration at one point.  Returns dict with observed and oracle quantities."""
     import numdifftools.finite_difference as fdm
     method, n, order = cfg
@@ -138,10 +138,12 @@ def run_config(fun, cfg, gen, pi, direct_fx):
             val, info = d(pi.x)
             res['val'] = val
             res['info'] = info
-            try:
-                res['lib_steps'] = [np.asarray(s) for s in d.step(np.asarray(pi.x), method, n, d.method_order)]
-            except Exception:
-                res['lib_steps'] = None
+            res['lib_steps'] = None
+            if want_steps:
+                try:
+                    res['lib_steps'] = [np.asarray(s) for s in d.step(np.asarray(pi.x), method, n, d.method_order)]
+                except Exception:
+                    res['lib_steps'] = None
     except Exception as e:
         res['status'] = 'raised-' + type(e).__name__
         res['exc'] = '%s: %s' % (type(e).__name__, e)
